@@ -67,6 +67,10 @@ type OpaqueFloat struct {
 	bits bool // src is the IEEE bit pattern (else: an integer converted to float)
 }
 
+// RORef is a read-only pointer to "the element at a symbolic index" of an array whose elements
+// in the chosen index range are all identical (e.g. a slot -> node table); stores are unsupported.
+type RORef struct{ v Value }
+
 // unsafe.Pointer wrapper
 type UPtr struct{ p Value }
 
